@@ -6,8 +6,7 @@ Model: `WfModel/KeyedLock.lean` (M6).  Schedules are arbitrary lists of the
 code's await-free sections (`run acts`), over unboundedly many agents and keys,
 with cancellation at every suspension point.  Disabled actions are skipped.
 -/
-namespace KeyedLock
-open GenKeyedLock
+open KeyedLock GenKeyedLock
 
 /-- The constants and the control shape the model is written against, re-read
 from `_keyed_lock.py` on every run: refcounts start at 0, move by 1, the entry
@@ -248,24 +247,24 @@ theorem C25_eventually_enters (pre : List Act) (sched : Nat → Act) (k a : Nat)
 
 /-- non-vacuity: a concrete fair infinite schedule (after agent 3 is in, the
 schedule idles on a disabled action and the fairness premise is vacuous). -/
-def exPre : List Act := [⟨7, .enter 1⟩, ⟨7, .enter 2⟩, ⟨7, .enter 3⟩, ⟨7, .cancel 2⟩]
-def exSched : Nat → Act
+def C25.exPre : List Act := [⟨7, .enter 1⟩, ⟨7, .enter 2⟩, ⟨7, .enter 3⟩, ⟨7, .cancel 2⟩]
+def C25.exSched : Nat → Act
   | 0 => ⟨7, .exit 1⟩
   | 1 => ⟨7, .resume 2⟩
   | _ => ⟨7, .resume 3⟩
 
 example :
-    (∀ n, exSched n ≠ ⟨7, .cancel 3⟩) ∧
-    (∀ n, live ((trace exSched (run exPre) n).slot 7) 3 = true →
-      ∃ m, n ≤ m ∧ isProgressG (trace exSched (run exPre) m) 7 (exSched m) = true) ∧
-    live ((trace exSched (run exPre) 0).slot 7) 3 = true := by
-  have hs : ∀ n, exSched (n + 2) = ⟨7, .resume 3⟩ := fun _ => rfl
-  have hstable : ∀ n, trace exSched (run exPre) (n + 3) = trace exSched (run exPre) 3 := by
+    (∀ n, C25.exSched n ≠ ⟨7, .cancel 3⟩) ∧
+    (∀ n, live ((trace C25.exSched (run C25.exPre) n).slot 7) 3 = true →
+      ∃ m, n ≤ m ∧ isProgressG (trace C25.exSched (run C25.exPre) m) 7 (C25.exSched m) = true) ∧
+    live ((trace C25.exSched (run C25.exPre) 0).slot 7) 3 = true := by
+  have hs : ∀ n, C25.exSched (n + 2) = ⟨7, .resume 3⟩ := fun _ => rfl
+  have hstable : ∀ n, trace C25.exSched (run C25.exPre) (n + 3) = trace C25.exSched (run C25.exPre) 3 := by
     intro n
     induction n with
     | zero => rfl
     | succ n ih =>
-      show stepD (trace exSched (run exPre) (n + 3)) (exSched (n + 3)) = _
+      show stepD (trace C25.exSched (run C25.exPre) (n + 3)) (C25.exSched (n + 3)) = _
       rw [ih, show n + 3 = (n + 1) + 2 from rfl, hs]
       exact stepD_of_error (e := .disabled) (by rfl)
   refine ⟨?_, ?_, by decide⟩
@@ -280,4 +279,3 @@ example :
     | 2 => exact ⟨2, Nat.le_refl _, by decide⟩
     | n + 3 => rw [hstable n] at hn; exfalso; revert hn; decide
 
-end KeyedLock
